@@ -6,19 +6,43 @@ import (
 	"strings"
 	"testing"
 
+	"google.golang.org/protobuf/reflect/protoreflect"
+	"google.golang.org/protobuf/types/known/fieldmaskpb"
 	"pgregory.net/rapid"
 
 	"github.com/smart-core-os/sc-golang/verifh/lib"
 	"github.com/smart-core-os/sc-golang/verifh/rlib"
 )
 
+// scalarMask: under an equivalence the read masks are one or two top level scalar fields, so that the sentinel write at
+// the end (which changes every scalar) is never taken for a duplicate.
+func scalarMask(t *rapid.T, md protoreflect.MessageDescriptor) *fieldmaskpb.FieldMask {
+	fields := md.Fields()
+	var paths []string
+	for j := 0; j < rapid.IntRange(1, 2).Draw(t, "npaths"); j++ {
+		fd := fields.Get(rapid.IntRange(0, fields.Len()-1).Draw(t, "field"))
+		if fd.Message() == nil && !fd.IsList() && !fd.IsMap() && fd.ContainingOneof() == nil {
+			paths = append(paths, string(fd.Name()))
+		}
+	}
+	if len(paths) == 0 {
+		return nil
+	}
+	return &fieldmaskpb.FieldMask{Paths: paths}
+}
+
 func runCore(t *rapid.T, isValue bool) {
 	cfg, alphabet := rlib.GenConfig(t, isValue, false)
+	if rapid.IntRange(0, 2).Draw(t, "noDuplicates") == 0 {
+		cfg.Equivalence = "nodup" // the resource then remembers what it last sent each subscriber
+	}
 	reg := newRegistry()
 	var subs []rlib.SubSpec
 	for i := 0; i < rapid.IntRange(0, 2).Draw(t, "nsubs"); i++ {
 		s := rlib.SubSpec{Backpressure: true, UpdatesOnly: rapid.IntRange(0, 3).Draw(t, "updatesOnly") == 0}
-		if rapid.Bool().Draw(t, "masked") {
+		if cfg.Equivalence != "" && rapid.Bool().Draw(t, "maskedScalar") {
+			s.ReadMask = scalarMask(t, cfg.Proto.ProtoReflect().Descriptor())
+		} else if cfg.Equivalence == "" && rapid.Bool().Draw(t, "masked") {
 			s.ReadMask, _ = lib.DrawMask(t, "subMask", cfg.Proto.ProtoReflect().Descriptor(), alphabet...)
 			if s.ReadMask != nil && len(s.ReadMask.Paths) == 0 {
 				s.ReadMask = nil
@@ -37,7 +61,9 @@ func runCore(t *rapid.T, isValue bool) {
 		if rapid.IntRange(0, 14).Draw(t, "openSub") == 0 {
 			// opening a subscription (and receiving its seed) is a read-only operation
 			s := rlib.SubSpec{Backpressure: true}
-			if rapid.Bool().Draw(t, "lateMasked") {
+			if cfg.Equivalence != "" && rapid.Bool().Draw(t, "lateMaskedScalar") {
+				s.ReadMask = scalarMask(t, cfg.Proto.ProtoReflect().Descriptor())
+			} else if cfg.Equivalence == "" && rapid.Bool().Draw(t, "lateMasked") {
 				s.ReadMask, _ = lib.DrawMask(t, "lateMask", cfg.Proto.ProtoReflect().Descriptor(), alphabet...)
 				if s.ReadMask != nil && len(s.ReadMask.Paths) == 0 {
 					s.ReadMask = nil
